@@ -3,6 +3,8 @@ package main
 import (
 	"fmt"
 	"go/token"
+	"sort"
+	"strings"
 
 	"golang.org/x/tools/go/ssa"
 )
@@ -114,7 +116,97 @@ func runC10(c *Ctx) {
 		}
 		c.obI("R10.1", r, "all-path-params-substituted", inLoop, "every path parameter is substituted", "")
 	}
-	// trailing slash flag derives from the pattern's last byte
+	// the joined-and-substituted text is never looked at again: it only flows on into the next substitution, into the
+	// reinstated slash and into the request. (Whether the slash is reinstated is decided by the PATTERN alone — a test
+	// on the substituted text makes an empty last value lose its segment.)
+	{
+		text := map[ssa.Value]bool{}
+		for _, j := range joins {
+			text[j] = true
+		}
+		for _, r := range repls {
+			text[r] = true
+		}
+		for changed := true; changed; {
+			changed = false
+			for _, in := range instrs(f) {
+				switch x := in.(type) {
+				case *ssa.Phi:
+					if text[x] {
+						continue
+					}
+					for _, e := range x.Edges {
+						if text[e] {
+							text[x] = true
+							changed = true
+						}
+					}
+				case *ssa.BinOp:
+					if !text[x] && x.Op == token.ADD && text[x.X] {
+						text[x] = true
+						changed = true
+					}
+				case *ssa.Call:
+					// the text handed to a looked-through helper: the helper's parameter and what it returns carry it on
+					if callee := transparentCallee(x); callee != nil {
+						for i, a := range x.Call.Args {
+							if text[a] && i < len(callee.Params) {
+								if !text[callee.Params[i]] {
+									text[callee.Params[i]] = true
+									changed = true
+								}
+								if !text[x] && typeStr(x.Type()) == "string" {
+									text[x] = true
+									changed = true
+								}
+							}
+						}
+					}
+				}
+			}
+		}
+		var vals []ssa.Value
+		for v := range text {
+			vals = append(vals, v)
+		}
+		sort.Slice(vals, func(i, j int) bool { return vals[i].Pos() < vals[j].Pos() })
+		for _, v := range vals {
+			refs := v.Referrers()
+			if refs == nil {
+				continue
+			}
+			for _, ref := range *refs {
+				okUse := false
+				switch x := ref.(type) {
+				case *ssa.Phi, *ssa.DebugRef:
+					okUse = true
+				case *ssa.BinOp:
+					okUse = text[x]
+				case *ssa.Call:
+					switch calleeName(&x.Call) {
+					case "strings.ReplaceAll":
+						okUse = x.Call.Args[0] == v
+					case "net/http.NewRequestWithContext":
+						okUse = x.Call.Args[2] == v
+					default:
+						okUse = transparentCallee(x) != nil && text[x] // handed to a helper that carries it on
+						if n := strings.ToLower(calleeName(&x.Call)); strings.Contains(n, "debug") || strings.Contains(n, "log.") || strings.Contains(n, "logger") {
+							okUse = true // diagnostics: no decision hangs on it
+						}
+					}
+				case *ssa.MakeInterface:
+					okUse = true // boxed for a variadic diagnostics call (judged at the call, if it is one that decides anything)
+				case *ssa.Return:
+					okUse = isTransparent(x.Parent())
+				case *ssa.Store:
+					okUse = true // spilled to a cell: the loads are followed by provenance
+				}
+				if !okUse {
+					c.obI("R10.1", ref, "url-text-not-inspected", false, "the joined and substituted path text is only substituted into further, given its reinstated slash and handed to the request: nothing — in particular not the trailing-slash decision — depends on what the substituted values look like", "the substituted path text is used by "+describe(refValue(ref)))
+				}
+			}
+		}
+	}
 	c.min("R10.1", 6)
 
 	// R10.2 query
@@ -264,7 +356,14 @@ func runC10(c *Ctx) {
 			return false
 		}
 		ia, ok := ad.(*ssa.IndexAddr)
-		return ok && ia.X == ssa.Value(schemes)
+		if !ok {
+			return false
+		}
+		if ia.X == ssa.Value(schemes) {
+			return true
+		}
+		same, _ := allOrigins(ia.X, oIsValue(schemes)) // (the list handed on to a search helper)
+		return same
 	}
 	elemIsHTTPS := factEqString(func(v ssa.Value) bool { ok, _ := allOrigins(v, isElem); return ok }, "https", true)
 	for _, r := range returnsOf(ss) {
@@ -273,18 +372,48 @@ func runC10(c *Ctx) {
 			s, isC := constString(o.V)
 			return isC && s == "https" && guardedBy(r, nil, elemIsHTTPS)
 		})
+		if phi, isPhi := r.Results[0].(*ssa.Phi); !ok && isPhi {
+			// the constant may arrive on one edge of a merge only: that edge must lie behind "an element equals https"
+			ok = true
+			for i, e := range phi.Edges {
+				if s, isC := constString(e); isC && s == "https" {
+					if !edgeGuarded(phi.Block().Preds[i], phi.Block(), nil, elemIsHTTPS) {
+						ok = false
+					}
+					continue
+				}
+				if okE, _ := allOrigins(e, oConstString(""), isElem); !okE {
+					ok = false
+				}
+			}
+		}
 		c.obI("R10.3", r, "select-returns-element", ok, "selectScheme returns an element of the list it was given (or \"\")", "origin "+describeOrigin(bad))
 	}
 	loops := sliceLoops(ss, nil)
-	okScan := len(loops) == 1 && loops[0].X == ssa.Value(schemes)
+	okScan := len(loops) == 1
+	if okScan && loops[0].X != ssa.Value(schemes) {
+		okScan, _ = allOrigins(loops[0].X, oIsValue(schemes)) // (the whole list handed on to a search helper)
+	}
 	c.obF("R10.3", ss, "scans-whole-list", okScan, "the search for https ranges over the whole scheme list", "the loop does not range over the `schemes` parameter itself (a re-sliced or partial scan can miss https)")
 	if len(loops) == 1 {
 		l := loops[0]
 		// the loop is left early only when https was found
 		inLoop := map[*ssa.BasicBlock]bool{l.Header: true}
-		for _, b := range ss.Blocks {
+		for _, b := range l.Header.Parent().Blocks {
 			if b != l.Header && l.Header.Dominates(b) && reachableFrom(b, l.Header) {
 				inLoop[b] = true
+			}
+		}
+		restoreEnv := func() {}
+		if lf := l.Header.Parent(); lf != ss {
+			// the scan lives in a helper: judge it in the calling context of selectScheme
+			for _, fr := range framesUnder(ss) {
+				if fr.fn == lf {
+					saved := paramEnv
+					paramEnv = fr.env
+					restoreEnv = func() { paramEnv = saved }
+					break
+				}
 			}
 		}
 		isHTTPS := factEqString(func(v ssa.Value) bool {
@@ -316,6 +445,7 @@ func runC10(c *Ctx) {
 				}
 			}
 		}
+		restoreEnv()
 	}
 	c.min("R10.3", 8)
 
@@ -373,4 +503,27 @@ func runC10(c *Ctx) {
 		}
 	}
 	c.obRF("R10.3", nw, "stores-base-path", nBP >= 1, "client.New records the base path", "")
+	// the transport's own scheme list (which pickScheme prefers over the operation's) is only ever the list the
+	// caller gave: a transport made without schemes leaves the choice to the operation's offer
+	nSch := 0
+	for _, fn := range p.LibFuncs("rt/client") {
+		for _, st := range fieldStores(fn, "rt/client.Runtime", "schemes") {
+			if st.Parent() != fn {
+				continue
+			}
+			nSch++
+			ok, bad := allOrigins(st.Val, func(o Origin) bool {
+				prm, isP := o.V.(*ssa.Parameter)
+				return isP && typeStr(prm.Type()) == "[]string"
+			})
+			c.obI("R10.3", st, "transport-schemes-are-the-callers", ok, "the transport's scheme list is the one its caller passed (no default list hides the schemes an operation offers: https is chosen whenever the operation offers it and the transport states no preference)", "origin "+describeOrigin(bad))
+		}
+	}
+	c.obRF("R10.3", nw, "stores-schemes", nSch >= 1, "client.New records the caller's schemes", "")
+}
+
+// refValue is the value an instruction defines (nil for pure effects).
+func refValue(in ssa.Instruction) ssa.Value {
+	v, _ := in.(ssa.Value)
+	return v
 }
